@@ -80,6 +80,33 @@ func shuffleCycle(c *caseCtx, s state) ([]string, bool) {
 	return nil, false
 }
 
+// outAndBack: three plies - an officer of the side to move goes out, the opponent makes any quiet
+// move, the officer returns: the final position has one side's piece "moved" although it stands at home.
+func outAndBack(c *caseCtx, s state) ([]string, bool) {
+	xs := legalMoves(s.pos, s.turn)
+	c.r.Shuffle(len(xs), func(i, j int) { xs[i], xs[j] = xs[j], xs[i] })
+	for _, x := range xs {
+		if x.Type != board.Normal || x.Piece == board.King || x.Piece == board.Pawn {
+			continue
+		}
+		p1, _ := s.pos.Move(x)
+		ys := legalMoves(p1, s.turn.Opponent())
+		c.r.Shuffle(len(ys), func(i, j int) { ys[i], ys[j] = ys[j], ys[i] })
+		for _, y := range ys {
+			if y.IsCapture() {
+				continue
+			}
+			p2, _ := p1.Move(y)
+			for _, xb := range legalMoves(p2, s.turn) {
+				if xb.Type == board.Normal && xb.From == x.To && xb.To == x.From {
+					return []string{uciMove(x), uciMove(y), uciMove(xb)}, true
+				}
+			}
+		}
+	}
+	return nil, false
+}
+
 // C18: what a search returns depends only on the game state and the depth.
 func casesDeterminism(c *caseCtx) {
 	ctx := context.Background()
@@ -182,6 +209,42 @@ func casesDeterminism(c *caseCtx) {
 		for i := range res {
 			if len(res[i].lines) > 0 && res[i].String() != ref.String() {
 				viol("concurrent", fmt.Sprintf("%s :: concurrently with other engines the search returned [%s], alone [%s]", label, res[i], ref))
+			}
+		}
+		// (7) the same position (same hash) searched before as a set-up position without history: the game
+		// state differs (moved pieces, castled flags, move numbers), and nothing of that search may carry over
+		{
+			// make sure that some piece stands at home but has moved
+			if oab, ok := outAndBack(c, cur); ok && c.r.Intn(3) > 0 {
+				moves7 := append(append([]string{}, moves...), oab...)
+				if bb := boardFrom(f, moves7); bb != nil {
+					bare := fen.Encode(bb.Position(), bb.Turn(), bb.NoProgress(), bb.FullMoves())
+					if ref7, _, ok7 := analyse(ctx, mk(0, 0), f, moves7, depth); ok7 {
+						e7 := mk(0, 0)
+						_, _, _ = analyse(ctx, e7, bare, nil, depth)
+						a, _, ok1 := analyse(ctx, e7, f, moves7, depth)
+						if ok1 && a.String() != ref7.String() {
+							viol("history-carry-over", fmt.Sprintf("%s + [%s] :: after searching the same position set up from its FEN (no history) the engine returned [%s], a new engine [%s]", label, strings.Join(oab, " "), a, ref7))
+						}
+					}
+				}
+			}
+		}
+		if len(moves) > 0 {
+			if bb := boardFrom(f, moves); bb != nil {
+				bare := fen.Encode(bb.Position(), bb.Turn(), bb.NoProgress(), bb.FullMoves())
+				e7 := mk(0, 0)
+				_, _, _ = analyse(ctx, e7, bare, nil, depth)
+				a, _, ok1 := analyse(ctx, e7, f, moves, depth)
+				if ok1 && a.String() != ref.String() {
+					viol("history-carry-over", fmt.Sprintf("%s :: after searching the same position set up from its FEN (no history) the engine returned [%s], a new engine [%s]", label, a, ref))
+				}
+				// and the other way round
+				refBare, _, okb := analyse(ctx, mk(0, 0), bare, nil, depth)
+				b2, _, ok2 := analyse(ctx, e7, bare, nil, depth)
+				if okb && ok2 && b2.String() != refBare.String() {
+					viol("history-carry-over", fmt.Sprintf("%s :: set up from its FEN after searching the game, the engine returned [%s], a new engine [%s]", label, b2, refBare))
+				}
 			}
 		}
 		// (6) with a hash table: setting a position up starts from an empty table, so nothing is carried
